@@ -70,6 +70,19 @@ func chunkedEncode(e *Env, body []byte, variant string) []byte {
 	var b bytes.Buffer
 	cuts := e.Cuts(len(body), 3)
 	off := 0
+	hugeAt, hugeSize := 0, ""
+	if variant == "huge" {
+		var nz []int
+		for i, n := range cuts {
+			if n != 0 {
+				nz = append(nz, i)
+			}
+		}
+		if len(nz) > 0 {
+			hugeAt = nz[e.Int(len(nz))]
+		}
+		hugeSize = Pick(e, "ffffffffffffffffff", "ffffffffffffffff", "fffffffffffffffe", "fffffffffffffffd", "8000000000000000", "7fffffffffffffff", "10000000000000000", "fffffffffffffff0", "FFFFFFFFFFFFFFFE")
+	}
 	for i, n := range cuts {
 		if n == 0 {
 			continue
@@ -103,8 +116,10 @@ func chunkedEncode(e *Env, body []byte, variant string) []byte {
 				size = "+" + size
 			}
 		case "huge":
-			if i == 0 {
-				size = "ffffffffffffffffff"
+			// sizes around the 64-bit boundary (16 hex digits with the top bit
+			// set wrap negative in a careless accumulator), at any chunk
+			if i == hugeAt {
+				size = hugeSize
 			}
 		}
 		b.WriteString(size)
